@@ -54,7 +54,7 @@ def run(idx, rep, tier):
 
 
 def r1(idx, rep, tier):
-    fi, rows = MM.run_model(idx, max_components=3, with_memo=True)
+    fi, rows = MM.run_model(idx, max_components=5 if tier == "thorough" else 3, with_memo=True)
     rep.analysed(fi)
     bad = {}
     for row in rows:
